@@ -21,7 +21,7 @@ import explore  # noqa: E402
 import fakefd  # noqa: E402
 
 
-def make_run(root, plan):
+def make_run(root, plan, line_preempt=False):
     from watchdog.observers import inotify_buffer as ib
     from watchdog.observers.inotify_c import InotifyConstants as C
 
@@ -37,7 +37,7 @@ def make_run(root, plan):
     def run_one(chooser):
         k = fakefd.FakeKernel()
         undo = fakefd.install(k)
-        sched = detsched.Scheduler(chooser, max_steps=1500)
+        sched = detsched.Scheduler(chooser, max_steps=60000 if line_preempt else 1500, line_preempt=line_preempt)
         failure = None
         try:
             ib.InotifyBuffer._det_name = "0"
@@ -289,6 +289,31 @@ def run(res, tier, lean, proof_breaks=(), build_log=""):
         shutil.rmtree(root, ignore_errors=True)
     outs = lean.run(lines)
     bad, judged = [], []
+    if any(o != i for o, i in zip(outs, impl)) and not any(judge(result) for _p, result in meta):
+        # the correspondence is broken and no explored run misused a descriptor: search for a failing input with EVERY
+        # source line of the library as a scheduling point (sticky random runs, and one thread parked at each point
+        # while the other completes whole calls)
+        root2 = tempfile.mkdtemp(prefix="wdverif-c12s-", dir=os.environ.get("TMPDIR") or None)
+        try:
+            for plan in plans:
+                run_lp = make_run(root2, plan, line_preempt=True)
+                found = None
+                for sched, result in list(explore.park_runs(run_lp, 150)) + list(explore.random_runs(run_lp, r, 60, 0.05)):
+                    res.bump("line_level_search_runs")
+                    v = judge(result)
+                    if v and not isinstance(result["failure"], detsched.StepLimit):
+                        found = (v, result)
+                        break
+                if found:
+                    v, result = found
+                    sig = "c12-leak" if v.startswith("descriptors still open") else "c12-use-after-close"
+                    res.violation(f"Inotify close/read protocol (line-level schedule): {v}",
+                                  {"injected_batches": plan, "schedule_steps": result["line"][-3000:],
+                                   "how": "deterministic scheduler with every source line of watchdog/* as a scheduling point"},
+                                  signature=sig)
+                    break
+        finally:
+            shutil.rmtree(root2, ignore_errors=True)
     for line, o, i, (plan, result) in zip(lines, outs, impl, meta):
         res.count()
         sch = result["schedule"]
@@ -322,7 +347,7 @@ def run(res, tier, lean, proof_breaks=(), build_log=""):
     if rbad:
         res.violation("real kernel: descriptor/thread counts do not return to their previous values: " + "; ".join(rbad),
                       {"measurements": rbad}, signature="c12-real-cycles")
-    if (bad or cmism) and not (judged or cbad or rbad):
+    if (bad or cmism) and not (judged or cbad or rbad or res.violations):
         line, i, o = (bad[0][:3] if bad else cmism[0])
         res.violation("correspondence WD.Fd <-> Inotify/InotifyBuffer broken (theorems C12.* no longer tied to the code); every "
                       "explored run was judged by the fake kernel and none misused or leaked a descriptor",
